@@ -26,7 +26,7 @@ Example ex_methods : methods_ok ex_nm ex_outline = true. Proof. reflexivity. Qed
 Example ex_run_bound : bound ex_nm run_name = true /\ bound ex_nm do_step_name = true.
 Proof. split; reflexivity. Qed.
 Example ex_codec : forall w, u_load (u_save w) = inr w.
-Proof. intros [p r c o]. unfold u_load, u_save. simpl. destruct o; reflexivity. Qed.
+Proof. intros [p r c o [ir ip sn]]. unfold u_load, u_save. simpl. destruct o; reflexivity. Qed.
 
 (* a stepper six objects deep (block > while > block > if > block > function): it is consistent and
    its saved state recreates it *)
@@ -41,7 +41,7 @@ Proof. eexists. split; reflexivity. Qed.
 Definition ex_chain :=
   match create ex_outline with
   | inr sp => run_chain uw reg (s_stepf ex_rets) (s_predf ex_preds) s_assign 50 ex_outline sp
-                        (mk_ist uw reg (mk_uw 0 0 [] []) [] [])
+                        (mk_ist uw reg (uw0 None) [] [])
   | inl _ => None
   end.
 Example ex_chain_ends :
@@ -56,7 +56,7 @@ Proof. vm_compute. repeat split. Qed.
 Definition ex_run (plan : list (nat * nat)) :=
   match create ex_outline with
   | inr sp => wc_run_r uw reg (s_stepf ex_rets) (s_predf ex_preds) s_assign ex_nm true ub u_save u_load
-                       ex_outline (plan_fn plan) 50 0 (wc_init uw reg sp (mk_uw 0 0 [] []))
+                       ex_outline (plan_fn plan) 50 0 (wc_init uw reg sp (uw0 None))
   | inl _ => None
   end.
 Example ex_resume :
@@ -75,7 +75,7 @@ Example ex_override_not_ok : methods_ok ex_nm_override ex_outline = false. Proof
 Example ex_override_diverges :
   match create ex_outline with
   | inr sp => wc_run_r uw reg (s_stepf ex_rets) (s_predf ex_preds) s_assign ex_nm_override true ub u_save u_load
-                       ex_outline (plan_fn [(1, 1)]) 50 0 (wc_init uw reg sp (mk_uw 0 0 [] []))
+                       ex_outline (plan_fn [(1, 1)]) 50 0 (wc_init uw reg sp (uw0 None))
               = Some (RRestoreFailed 1 (EUser "C08-fnrebind"))
   | inl _ => False
   end.
@@ -84,7 +84,7 @@ Proof. vm_compute. reflexivity. Qed.
 Example ex_override_repaired :
   match ex_chain, (match create ex_outline with
                    | inr sp => wc_run_r uw reg (s_stepf ex_rets) (s_predf ex_preds) s_assign ex_nm_override false
-                                 ub u_save u_load ex_outline (plan_fn [(1, 1)]) 50 0 (wc_init uw reg sp (mk_uw 0 0 [] []))
+                                 ub u_save u_load ex_outline (plan_fn [(1, 1)]) 50 0 (wc_init uw reg sp (uw0 None))
                    | inl _ => None end) with
   | Some (s, sp, r), Some (RDone (s', Some sp', r')) => s = s' /\ sp = sp' /\ r = r'
   | _, _ => False
@@ -101,6 +101,7 @@ Example ex_closed : closed_program pu (p_ufn ex_prog) ex_pnm.
 Proof.
   intros f u a kw u' c H. unfold p_ufn in H.
   destruct (is_foreign f); [inversion H; reflexivity|].
+  destruct (look (p_in u)) as [e|i]; [inversion H|].
   unfold ex_prog in H. simpl in H.
   destruct (String.eqb f "run"); [destruct (count_of f u); inversion H; reflexivity|].
   destruct (String.eqb f "a"); [destruct (count_of f u); inversion H; reflexivity|].
@@ -109,10 +110,10 @@ Proof.
 Qed.
 Example ex_proc_resume :
   proc_run_r pu (p_ufn ex_prog) ex_pnm true (resume_fn [None; None; None; Some (VStr "v")]) pub pu_save pu_load
-             (plan_fn [(1, 2); (3, 3); (4, 1)]) 20 0 (proc_init pu (mk_pu [] [] [] [])) =
+             (plan_fn [(1, 2); (3, 3); (4, 1)]) 20 0 (proc_init pu (pu0 None)) =
   proc_run_r pu (p_ufn ex_prog) ex_pnm true (resume_fn [None; None; None; Some (VStr "v")]) pub pu_save pu_load
-             no_restores 20 0 (proc_init pu (mk_pu [] [] [] []))
+             no_restores 20 0 (proc_init pu (pu0 None))
   /\ exists u, proc_run_r pu (p_ufn ex_prog) ex_pnm true (resume_fn [None; None; None; Some (VStr "v")]) pub pu_save pu_load
-             no_restores 20 0 (proc_init pu (mk_pu [] [] [] [])) = Some (RDone (OFinished (VInt 7) true, u))
+             no_restores 20 0 (proc_init pu (pu0 None)) = Some (RDone (OFinished (VInt 7) true, u))
                /\ List.length (p_trace u) = 3.
 Proof. split; [vm_compute; reflexivity|]. eexists. split; vm_compute; reflexivity. Qed.
